@@ -64,6 +64,9 @@ theorem step_inv_release (s s' : St) (e : Ev) (hi : Inv s) (hs : step s e = some
     simp only [step] at hs; split at hs <;> try simp at hs
     rename_i r hb
     split at hs <;> try simp at hs
+    case h_2 =>
+      obtain ⟨_, rfl⟩ := hs
+      exact inv_th_set s b _ (.rel r .done) (.thr b) hi hb rfl (by intro _ _ _ _ _ he; cases he)
     rename_i k pc flag self told hr
     obtain ⟨_, rfl⟩ := hs
     have hne : r ≠ b := by intro e; subst e; rw [hb] at hr; cases hr
